@@ -189,8 +189,10 @@ Ideal(rd) ==
          ELSE Mk(rd, "ok", {}, {}, {}, FALSE)
     [] rd.surf = "Changes" ->
          LET chs == IF rd.v.filter = "bychannel" THEN {"A", "B", Pub} ELSE {}
-             listed == IF rd.v.active THEN CurReadable(u) /\ SeenByFeed(u, chs) ELSE SeenByFeed(u, chs) IN
-         IF listed THEN Mk(rd, "ok", IF rd.v.body /\ CurReadable(u) THEN {cur} ELSE {}, {}, IF rd.v.body THEN {Ent(u, cur)} ELSE {}, TRUE)
+             listed == IF rd.v.active THEN CurReadable(u) /\ SeenByFeed(u, chs) ELSE SeenByFeed(u, chs)
+             \* under a channel filter a document whose current revision left the requested channels is listed by its removal row
+             curRow == chs = {} \/ Rev(cur).chans \cap chs # {} IN
+         IF listed THEN Mk(rd, "ok", IF rd.v.body /\ CurReadable(u) /\ curRow THEN {cur} ELSE {}, {}, IF rd.v.body /\ curRow THEN {Ent(u, cur)} ELSE {}, TRUE)
          ELSE Mk(rd, "ok", {}, {}, {}, FALSE)
     [] rd.surf = "GetAttachment" ->
          LET id == IF rd.rev = "" THEN cur ELSE rd.rev IN
@@ -199,7 +201,9 @@ Ideal(rd) ==
     [] rd.surf = "BlipRev" ->
          LET ents == IF SeenByReplication(u) THEN {Ent(u, cur)} ELSE {} IN Mk(rd, "ok", Bodies(ents), {}, ents, FALSE)
     [] rd.surf = "BlipGetAttachment" ->   \* only the attachments of a revision that is being delivered to this connection
-         IF rd.v.during /\ rd.rev = cur /\ CurReadable(u) THEN Mk(rd, "ok", {}, {cur}, {}, FALSE) ELSE ErrResp(rd)
+         \* (the allow-list entry is dropped when the gateway has processed the reply to the rev message, which races with
+         \*  a request sent right after replying: "after" may still be answered - Available only demands "during")
+         IF rd.rev = cur /\ CurReadable(u) THEN Mk(rd, "ok", {}, {cur}, {}, FALSE) ELSE ErrResp(rd)
     [] rd.surf = "BlipGetRev" ->
          IF CurReadable(u) THEN Mk(rd, "ok", {cur}, {}, {Ent(u, cur)}, FALSE) ELSE ErrResp(rd)
 
@@ -235,7 +239,7 @@ Conforms(rd, r) ==
   /\ r.mk \subseteq i.mk \cup bk \cup (IF rd.surf = "Changes" THEN Readable(rd.u) ELSE {})   \* a rebuilt feed may list an older revision too (C01's business)
   /\ r.am \subseteq i.am \cup DocLevelAtt(rd.u) \cup bk
   /\ Bodies(r.ents) \subseteq Bodies(i.ents) \cup bk \cup (IF rd.surf = "Changes" THEN Readable(rd.u) ELSE {})
-  /\ (~w /\ ~Del(cur)) => ((cur \in i.mk => cur \in r.mk) /\ ((cur \in i.am /\ CurIsLast) => cur \in r.am))
+  /\ (~w /\ ~Del(cur)) => ((cur \in i.mk => cur \in r.mk) /\ ((cur \in i.am /\ CurIsLast /\ (rd.surf = "BlipGetAttachment" => rd.v.during)) => cur \in r.am))
   /\ IF w THEN r.listed => i.listed ELSE r.listed = i.listed
   /\ (~w /\ rd.surf \in {"GetDoc", "GetAttachment"} /\ rd.rev = "" /\ (rd.surf = "GetAttachment" => CurIsLast)) => r.st = i.st
 
